@@ -550,6 +550,9 @@ def run(ctx):
     r08b(ctx)
     r08c(ctx)
     r08d(ctx)
+    # the minimal receptive field is exported too (shared with C01 R01e)
+    from .c01 import pad_guard_rule
+    pad_guard_rule(ctx, 'R08g')
     # which layers share a masker -- and therefore which layers are frozen with the group that
     # touches the network interface, and which keep the width of their producer -- is decided by
     # the op classification and by the sharing graph built from it (C09): a depthwise layer
